@@ -494,6 +494,18 @@ pub fn quantize_vector_linear(v: &[f32]) -> Vec<i8> {
         return vec![0i8; v.len()];
     }
 
+    // `max - min` leaves the f32 range for values near ±f32::MAX: scale in f64
+    if !range.is_finite() && min.is_finite() && max.is_finite() {
+        let (min, range) = (f64::from(min), f64::from(max) - f64::from(min));
+        return v
+            .iter()
+            .map(|&x| {
+                let scaled = (f64::from(x) - min) / range * 255.0 - 128.0;
+                scaled.round().clamp(-128.0, 127.0) as i8
+            })
+            .collect();
+    }
+
     v.iter()
         .map(|&x| {
             let normalized = (x - min) / range; // [0, 1]
@@ -530,6 +542,16 @@ pub fn quantize_vector_symmetric(v: &[f32]) -> Vec<i8> {
     }
 
     let scale = 127.0 / max_abs;
+
+    // `127 / max_abs` leaves the f32 range for sub-normal magnitudes: scale in f64
+    if !scale.is_finite() && max_abs.is_finite() {
+        let scale = 127.0 / f64::from(max_abs);
+        return v
+            .iter()
+            .map(|&x| (f64::from(x) * scale).round().clamp(-127.0, 127.0) as i8)
+            .collect();
+    }
+
     v.iter()
         .map(|&x| (x * scale).round().clamp(-127.0, 127.0) as i8)
         .collect()
